@@ -108,6 +108,15 @@ def check(prop, tier, jobs=16, only=None, seed=None, verbose=True):
     seed = int(os.environ.get("VERIF_SEED", "0")) if seed is None else seed
     hseed = seed % 1000003
     ensure_env(verbose)
+    if not os.environ.get("VF_NO_SELFCHECK"):
+        # oracle validation against the repository's own test fixtures (DESIGN 2.4), ~2 s
+        sc = subprocess.run([PY, "-m", "vlib.selfcheck"], env=_env(tier, {}, hseed), cwd=VERIF,
+                            capture_output=True, text=True)
+        if sc.returncode != 0:
+            print(sc.stdout[-3000:])
+            print("[vf] HARNESS-ERROR oracle self-check failed (an oracle disagrees with a fixture of the "
+                  "repository's own tests)")
+            return 2
     conds = [c for c in registry.load(prop) if tier in c.tiers and (only is None or c.name in only)]
     bdir = os.path.join(VERIF, "build", prop, tier)
     shutil.rmtree(bdir, ignore_errors=True)
